@@ -340,6 +340,9 @@ g_deps = g_history("deps", [None, None, None, "f07", "f08"])
 g_depsx = g_history("depsx", [None, None, "f07", "f07", "f08"])
 
 
+g_depsadjh = g_history("depsadjh", [None, None, None, "f07", "f08"])
+
+
 def g_depsemu(r):
     """C05 end to end: the same programs and histories, run by the real emulator (harness op depsemu)."""
     if r.random() < 0.4:
